@@ -27,6 +27,29 @@ CLAIMED = {
             "Acc<=min(P,R), tp<=tc<=min(nref,nest), nearest-frame resampling and empty frames outside the estimate's range on every path.",
             "Bounds: <=3 (quick) / 5 (thorough) frames for accounting, 2x2 / 3x3 frequencies per frame, <=3 time stamps per side; interp1d(nearest) stub "
             "cross-validated against SciPy per path; exact-midpoint ties accepted on either side.", "5 (C18)"),
+    "C01": ("Every public metric of the task table executed symbolically through its own validation on symbolic annotations of each listed "
+            "shape; per path z3 discharges the range obligation of every returned score (finite, in [0,1]; binary in {0,1}; ARI/AMI/AOR <= 1; "
+            "errors >= 0; deviation NaN iff a side has no boundaries). Counterexamples are replayed on the real float64 code; three classes of "
+            "genuine out-of-range scores are listed known findings, one was fixed.",
+            "Bounds: events <=3x3 / 4x4, notes 2x2 / 3x3 (1e-4 s lattice), frames <=3 / 5, segmentations <=2+2 / 3+2 with label patterns and "
+            "<=4 frames, patterns <=2x1 / 2x2, hierarchy 2 levels. exp/log/sqrt uninterpreted with monotonicity+anchor axioms. Out of reach and not "
+            "claimed: beat.p_score, beat.information_gain, alignment.karaoke_perceptual_metric, transcription_velocity, separation.", "5 (C01)"),
+    "C02": ("Every metric run on (x, copy of x) with x symbolic; z3 shows agreement scores == 1 and errors == 0 on every path under the statement's "
+            "non-degeneracy conditions; Goto on 5-6 beats, continuity on 5 beats (thorough).",
+            "Bounds: 1..3 (quick) / 1..4 (thorough) items; Cemgil assumes beats >= 0.16 s apart; melody with binary voicing; frame-level degeneracy of "
+            "segmentations judged after sampling (conventions asserted, 0/0 cases left to C01). P-score/information gain out of reach.", "5 (C02)"),
+    "C06": ("Same-path double execution m(a,b), m(b,a) of every symmetric metric; z3 shows P/R exchange and symmetric scores coincide for all inputs on the path.",
+            "Bounds as C01; beta=1; the with-offset transcription criterion is asymmetric by definition and excluded, AOR not required to swap.", "5 (C06)"),
+    "C07": ("Same-path executions with two symbolic settings t1<=t2 of one tolerance (others shared) and nested-criteria comparisons; z3 shows no score decreases.",
+            "Bounds: events <=2x2 (quick) / 3x3+, notes <=1x2 / 2x2, frames <=3 / 5; velocity tolerance not covered (lstsq out of reach).", "5 (C07)"),
+    "C14": ("Valid side: all metrics and every evaluate() explored symbolically under the documented conventions, an exception on any feasible path is a "
+            "violation (replayed). Invalid side: 117 single-fault corruptions with symbolic fault values must raise ValueError on every path.",
+            "Bounds as C01; evaluate() <=2+2 items; p_score/information_gain/karaoke metric stubbed inside evaluate (their internal exceptions are outside the "
+            "claim); key/chord strings handled by C10; three empty-reference evaluate() failures are listed known findings, one IndexError was fixed.", "5 (C14)"),
+    "C15": ("After each symbolically executed call every cell of every argument is compared with its pre-call term by z3 (in-place writes leave ite terms), "
+            "containers structurally; the call is repeated on the same path and results must be equal terms; np.empty yields fresh unknowns.",
+            "Bounds as C01/C14; covers task metrics, evaluate(), adjust_intervals/adjust_events/merge_labeled_intervals, freq_to_voicing; sonify and separation "
+            "numerics outside; two genuine mutations were fixed.", "5 (C15)"),
 }
 
 NA_REASON = "check not built yet in this revision (planned; see DESIGN.md section 5)"
